@@ -29,9 +29,13 @@ pub struct Ctl {
 
 /// 128-bank images: every bank number the 5+2-bit (MBC1) / 7-bit (MBC3) registers can
 /// produce exists, so no history leaves the image (that is C11/C12's subject, not C03's).
-pub const CTLS: [Ctl; 2] = [
+/// Small images: a register value that is a non-zero multiple of the bank count is reduced to
+/// bank 0, the one bank number the 128-bank images can never show at 0x4000-0x7FFF.
+pub const CTLS: [Ctl; 4] = [
   Ctl { name: "mbc1/128", cart_type: 0x03, rom_code: 0x06, banks: 128 },
   Ctl { name: "mbc3/128", cart_type: 0x13, rom_code: 0x06, banks: 128 },
+  Ctl { name: "mbc1/4", cart_type: 0x03, rom_code: 0x01, banks: 4 },
+  Ctl { name: "mbc3/8", cart_type: 0x13, rom_code: 0x02, banks: 8 },
 ];
 
 const WRITE_BLOCKS: usize = 0x0200;
@@ -61,8 +65,10 @@ pub fn world_for(c: &Ctl) -> (Vec<Ev>, Vec<u8>) {
       img[base + 0x100..base + 0x100 + c2.len()].copy_from_slice(&c2);
     }
   }
-  // bank 0: common block at 0x0150: INC D; LD A,D; LD (C000),A; JP 0150
-  let blk = [0x14, 0x7A, 0xEA, 0x00, 0xC0, 0xC3, 0x50, 0x01];
+  // bank 0: common block at 0x0150, which also reads *data* from the switchable bank by an
+  // absolute and by a register-indirect address (the byte at 0x4001 is the bank's number):
+  // INC D; LD A,(4001); LD E,A; LD BC,4001; LD A,(BC); ADD A,E; LD (C000),A; LD A,D; LD (C001),A; JP 0150
+  let blk = [0x14, 0xFA, 0x01, 0x40, 0x5F, 0x01, 0x01, 0x40, 0x0A, 0x83, 0xEA, 0x00, 0xC0, 0x7A, 0xEA, 0x01, 0xC0, 0xC3, 0x50, 0x01];
   img[0x150..0x150 + blk.len()].copy_from_slice(&blk);
   // bank 0: block at 0x3FFA running into 0x4000 without a terminator
   for a in 0x3FFA..0x4000 {
@@ -70,10 +76,14 @@ pub fn world_for(c: &Ctl) -> (Vec<Ev>, Vec<u8>) {
   }
   let mut evs: Vec<Ev> = vec![Ev::Run(0x0150), Ev::Run(0x4000), Ev::Run(0x4100), Ev::Run(0x3FFA)];
   let mut blocks: Vec<(u16, u8, String)> = Vec::new(); // (register address, value, name)
-  for k in [0u8, 1, 2, 3, 5, 0x21, 0x45].iter() {
+  let small = c.banks < 128;
+  let bank_values: Vec<u8> = if small { vec![1, 2, c.banks as u8, c.banks as u8 + 1, 2 * c.banks as u8] } else { vec![0u8, 1, 2, 3, 5, 0x21, 0x45] };
+  for k in bank_values.iter() {
     blocks.push((0x2100, *k, format!("bank({:02x})", k)));
   }
-  if c.cart_type == 0x03 {
+  if small {
+    // bank numbers only: the small images are about the reduction to the cartridge's size
+  } else if c.cart_type == 0x03 {
     for u in [0u8, 1, 2, 3].iter() {
       blocks.push((0x4000, *u, format!("upper({})", u)));
     }
